@@ -1878,7 +1878,7 @@ def pretty_str(s, ctx, split_pattern=None):
             pattern=split_pattern,
         ))
 
-        if len(lines) == 1:
+        if len(lines) <= 1:
             return flat_version
 
         parts = intersperse(
